@@ -309,3 +309,6 @@ Print Assumptions c04_code_after_finish_guard.
 Print Assumptions c04_code_direct_guard.
 Print Assumptions c04_code_guards_are_model.
 Print Assumptions c04_code_direct_is_model.
+Theorem c04_code_left_usize : forall left, left < 18446744073709551616 -> gen_sized_left_usize left = left.
+Proof. exact gen_sized_left_usize_spec. Qed.
+Print Assumptions c04_code_left_usize.
